@@ -60,6 +60,8 @@ func run(c *lib.Ctx) error {
 func writeCases(c *lib.Ctx, terms []string) {
 	rounding, how := detectRounding()
 	c.Res.Notes = append(c.Res.Notes, "calcSegmentAvailabilityTime rounding read from the source: "+rounding+" ("+how+")")
+	firstFix, how3 := detectFirstFix()
+	c.Res.Notes = append(c.Res.Notes, "first number honours the start number, read from the source: "+firstFix+" ("+how3+")")
 	catchup, how2 := detectCatchup()
 	c.Res.Notes = append(c.Res.Notes, "catch-up loop looks at lastSegNrToSend, read from the source: "+catchup+" ("+how2+")")
 	groups := map[string][]string{}
@@ -85,7 +87,7 @@ func writeCases(c *lib.Ctx, terms []string) {
 			if j > len(g) {
 				j = len(g)
 			}
-			defs := fmt.Sprintf("Definition mismatches := mismatches_r %s %s.\nDefinition model_view := model_view_r %s %s.\n", rounding, catchup, rounding, catchup)
+			defs := fmt.Sprintf("Definition mismatches := mismatches_r %s %s %s.\nDefinition model_view := model_view_r %s %s %s.\n", rounding, catchup, firstFix, rounding, catchup, firstFix)
 			content := lib.CasesFile("From Verif Require Import GoSem Timeline Ingest CorrC16.\n", "c16case", defs, g[i:j], "model_view")
 			c.WriteCases(fmt.Sprintf("cases_C16_%d.v", n), content)
 			n++
@@ -188,6 +190,32 @@ func detectCatchup() (string, string) {
 				}
 				return true
 			})
+			return true
+		})
+		return false
+	})
+	return found, how
+}
+
+// detectFirstFix reads cmafIngester.start: does it use the start number (a call of getStartNr) when
+// it chooses the first segment number (proposed_fixes/C16-first-number.diff) or not (the pinned code)?
+func detectFirstFix() (string, string) {
+	dir := app.VerifC16SourceDir()
+	fset := token.NewFileSet()
+	f, err := parser.ParseFile(fset, filepath.Join(dir, "cmaf-ingester.go"), nil, 0)
+	if err != nil {
+		return "false", "source not readable: " + err.Error()
+	}
+	found, how := "false", "start does not call getStartNr"
+	ast.Inspect(f, func(n ast.Node) bool {
+		fd, ok := n.(*ast.FuncDecl)
+		if !ok || fd.Name.Name != "start" || fd.Body == nil {
+			return true
+		}
+		ast.Inspect(fd.Body, func(m ast.Node) bool {
+			if sel, ok := m.(*ast.SelectorExpr); ok && sel.Sel.Name == "getStartNr" {
+				found, how = "true", "start adds getStartNr() to the first number"
+			}
 			return true
 		})
 		return false
